@@ -272,7 +272,8 @@ def cxx_refs_to_pointers(text):
                     break
                 d -= 1
             j += 1
-        scope = re.sub(r"\b%s\b" % re.escape(name), "(*%s_)" % name, text[m.end():j])
+        # not a member access (p->name, s.name): the local reference may carry the name of the member it binds to
+        scope = re.sub(r"(?<![\w.>])%s\b" % re.escape(name), "(*%s_)" % name, text[m.end():j])
         text = text[:m.start()] + decl + scope + text[j:]
 
 
